@@ -18,6 +18,8 @@ class _Stop(Exception):
 
 
 def _drive(ctx, binary, test, label, env=None, timeout=1800, tlc_timeout=2400):
+    if label in os.environ.get("VERIF_C16_SKIP", "").split(","):
+        return {"skipped": True}  # mutation runs: show what the other drivers catch
     out = ctx.sub(label)
     rc, o = vlib.run_driver(binary, test, out, ctx.seed, env=env or {}, timeout=timeout)
     # exit code 3: the driver's watchdog abandoned a step that never became
@@ -72,7 +74,7 @@ def run(ctx):
     ]
     return vlib.finish(
         ctx,
-        rule="TLC explores the design model (reference counting, freeze/unfreeze, bounded wait for writers, cached digest, two-half CAS transfer) for every interleaving of 2 client threads and 2 uploaders and checks C16_Refs/CloseOnce/Stale/Digest/NoLostWakeup (+ BoundedWait under fairness). The real NewPoolBackedFileAllocator behind the real FUSE and NFS stateful handle allocators is driven over an instrumented pool and a gated fake CAS by scripted races, seeded random histories and an exhaustive enumeration of short histories (testing/synctest, one call per step); TLC validates every line: number of Close() calls on the pool file vs. links+descriptors+frozen readers at every return and quiescent point, no touch of released storage, status of calls on released/live files, reported digest = SHA-256 of the bytes the CAS received = a content the file had during the upload, stat digests = present contents, waits only while their condition holds.",
+        rule="TLC explores the design model (reference counting, freeze/unfreeze, bounded wait for writers, cached digest, two-half CAS transfer) for every interleaving of 2 client threads and 2 uploaders and checks C16_Refs/CloseOnce/Stale/Digest/NoLostWakeup (+ BoundedWait under fairness). The real NewPoolBackedFileAllocator behind the real FUSE and NFS stateful handle allocators - driven directly, and through builder.NewVirtualBuildDirectory(InMemoryPrepopulatedDirectory).InstallHooks/UploadFile as the worker does - runs over an instrumented pool and a gated fake CAS: scripted races, seeded random histories, an exhaustive enumeration of short histories, and calls resuming on a released file (testing/synctest, one call per step, watchdog for spinning calls). TLC validates every line: number of Close() calls on the pool file vs. links+descriptors+frozen readers at every return and quiescent point, no touch of released storage, status of calls on released/live files, reported digest = SHA-256 of the bytes the CAS received = a content the file had during the upload, stat digests = present contents, link counts, waits only while their condition holds.",
         explanation="lifetime/reference counting and upload consistency of pool_backed_file_allocator.go",
         exhaustive=True,
         extra={"drivers": meta},
